@@ -1,6 +1,7 @@
 from .common import COMMON_ASSUME
 
 CFG = {
+    "default_features_variant": True,   # also run the harness built against rpm-rs WITHOUT its optional bzip2 feature (feature-gated code paths)
     "props_module": "RpmVerif.Props.C17",
     "required_theorems": ["RpmVerif.C17.add_data_total", "RpmVerif.C17.add_data_outcomes", "RpmVerif.C17.add_data_ok_iff_splittable",
                           "RpmVerif.C17.add_data_err_unsplittable", "RpmVerif.C17.add_data_ok_shape", "RpmVerif.C17.split_name_unique",
